@@ -1505,6 +1505,25 @@ def m_bytes_split(ip, b, sep=None, maxsplit=-1):
     raise Unsupported('split on symbolic value')
 
 
+def m_bytes_lstrip(ip, b, chars=None):
+    """b.lstrip(chars) for a single literal byte: the suffix b[k:] where k is the number of leading bytes equal to it
+    (k = 0 iff b is empty or starts with another byte; what remains is empty or starts with another byte)"""
+    if isinstance(b, bytes) and isinstance(chars, (bytes, type(None))):
+        return b.lstrip(chars)
+    if not (isinstance(b, Sym) and b.ty == 'bytes' and isinstance(chars, bytes) and len(chars) == 1):
+        raise Unsupported('bytes.lstrip is modelled for one literal byte only')
+    used(ip, 'bytes.lstrip(one byte): the suffix after the k leading occurrences of that byte')
+    c = z3.BitVecVal(chars[0], 8)
+    n = ops.blen(b.t)
+    k = ip.ctx.fresh('lstrip_k', z3.IntSort())
+    ip.ctx.assume(z3.And(k >= 0, k <= n))
+    ip.ctx.assume((k == 0) == z3.Or(n == 0, b.t[0] != c))
+    ip.ctx.assume(z3.Implies(k > 0, b.t[k - 1] == c))
+    ip.ctx.assume(z3.Implies(k < n, b.t[k] != c))
+    r = ops.getitem(b, slice(Sym(k, 'int'), None), ip.ctx)
+    return r
+
+
 def m_str_rsplit(ip, s, sep=None, maxsplit=-1):
     """s.rsplit(sep, 1) for a non-empty literal separator: [s] when sep does not occur, else [head, tail] with
     s = head + sep + tail and no sep in tail (z3 strings)"""
@@ -1614,7 +1633,7 @@ def m_bytes_hex(ip, b):
     return OPAQUE_STR
 
 
-BYTES_METHODS = {'decode': m_bytes_decode, 'join': m_bytes_join, 'split': m_bytes_split, 'startswith': m_str_startswith,
+BYTES_METHODS = {'lstrip': m_bytes_lstrip, 'decode': m_bytes_decode, 'join': m_bytes_join, 'split': m_bytes_split, 'startswith': m_str_startswith,
                  'endswith': m_str_endswith, 'replace': m_str_replace, 'hex': m_bytes_hex}
 STR_METHODS = {'rsplit': m_str_rsplit, 'isdigit': m_str_isdigit, 'encode': m_str_encode, 'join': None, 'split': m_bytes_split, 'startswith': m_str_startswith,
                'endswith': m_str_endswith, 'replace': m_str_replace, 'upper': m_str_upper, 'lower': m_str_lower,
